@@ -363,6 +363,8 @@ inline void supervise(const Part &part, const Options &opt, Agg &agg) {
   std::map<long long, int> timeouts;  // case -> number of firings
   double budget = part.cpuBudgetSec * opt.budgetScale;
   int respawns = 0;
+  const double kSoloFactor = 5;
+  int confirmedHangs = 0;
   while (pos < todo.size()) {
     int fds[2];
     if (pipe(fds) != 0) { agg.infra.push_back("pipe failed"); return; }
@@ -388,7 +390,7 @@ inline void supervise(const Part &part, const Options &opt, Agg &agg) {
         writeAll(g_pipeFd, "B " + std::to_string(idx) + "\n");
         CaseResult r;
         r.wantSample = (int)(k - pos) < samplesWanted && respawns == 0;
-        armTimer(solo ? budget * 10 : budget);
+        armTimer(solo ? budget * kSoloFactor : budget);
         try {
           execCase(part, opt.seed, idx, r);
         } catch (const std::exception &e) {
@@ -467,7 +469,13 @@ inline void supervise(const Part &part, const Options &opt, Agg &agg) {
         int n = ++timeouts[inflight];
         if (n >= 2) {
           agg.crashed++;
-          agg.viol.push_back({"hang", "case exceeded its CPU budget twice (second time alone with a 10x budget of " + std::to_string(budget * 10) + "s): the call does not return", inflight, ""});
+          ++confirmedHangs;
+          agg.viol.push_back({"hang", "case exceeded its CPU budget twice (" + std::to_string(budget) + " s, then alone with " + std::to_string(budget * kSoloFactor) + " s of CPU time): the call does not return", inflight, ""});
+          while (pos < todo.size() && todo[pos] <= inflight) ++pos;
+        } else if (confirmedHangs >= 2) {
+          // two hangs are already confirmed in this shard: further budget overruns are counted as inconclusive, not re-run
+          agg.inconclusive++;
+          agg.crashed++;
           while (pos < todo.size() && todo[pos] <= inflight) ++pos;
         }
         // else: retry the same case alone (pos unchanged)
